@@ -159,11 +159,30 @@ def compare(ctx, label, jobs, ref, got, judged, hist):
     return bad
 
 
-def explore(ctx, budget, tsan_budget, repeats, thread_counts, hist):
+def private_copy(exe, variant):
+    """private copy of a harness binary: a concurrent check may recompile the shared one in place"""
+    import shutil
+    import tempfile
     import vlib
-    exe = ctx.build_harness("ph_threads", extra=LOCKMON)
+    d = tempfile.mkdtemp(prefix="c06_bin_")
+    with vlib.Lock("harness-ph_threads" + variant):
+        return shutil.copy2(exe, os.path.join(d, "ph_threads-" + variant)), d
+
+
+def explore(ctx, budget, tsan_budget, repeats, thread_counts, hist):
+    import shutil
+    exe, d1 = private_copy(ctx.build_harness("ph_threads", extra=LOCKMON), "lib")
     ctx.build_lib("tsan", cxxflags=TSAN_FLAGS)
-    exet = ctx.build_harness("ph_threads", variant="tsan", extra=["-fsanitize=thread", "-g1"])
+    exet, d2 = private_copy(ctx.build_harness("ph_threads", variant="tsan", extra=["-fsanitize=thread", "-g1"]), "tsan")
+    try:
+        return explore_with(ctx, exe, exet, budget, tsan_budget, repeats, thread_counts, hist)
+    finally:
+        shutil.rmtree(d1, ignore_errors=True)
+        shutil.rmtree(d2, ignore_errors=True)
+
+
+def explore_with(ctx, exe, exet, budget, tsan_budget, repeats, thread_counts, hist):
+    import vlib
     rng = ctx.rng
     jobs = gt.jobs(rng, budget)
     nload = ctx.n(8, 20) if ctx.tier == "thorough" or budget < 100 else 20
